@@ -106,9 +106,22 @@ def header_ok(head) -> bool:
     meta = head[3:]
     if len(meta) > 1024:
         return False
-    if b"\r" in meta or b"\n" in meta:
-        return False
+    # element-wise: ``in`` / ``find`` on symbolic bytes make the engine realise every byte
+    for j in range(len(meta)):
+        c = meta[j]
+        if c == 13 or c == 10:
+            return False
     return True
+
+
+def find_crlf(b) -> int:
+    if isinstance(b, bytes) and type(b) is bytes:
+        return b.find(b"\r\n")
+    n = len(b)
+    for j in range(n - 1):
+        if b[j] == 13 and b[j + 1] == 10:
+            return j
+    return -1
 
 
 def well_formed(t, expect_response=True) -> bool:
@@ -129,7 +142,7 @@ def well_formed(t, expect_response=True) -> bool:
     if not segs or _is_fill(segs[0]):
         return False
     first = segs[0]
-    i = first.find(b"\r\n")
+    i = find_crlf(first)
     if i < 0:
         return False
     head = first[:i]
@@ -139,4 +152,25 @@ def well_formed(t, expect_response=True) -> bool:
     status_2x = head[0] == 0x32
     if body_len > 0 and not status_2x:
         return False
+    return True
+
+
+def wire_parts(t):
+    """(status_2x: bool, body) of the bytes written before close; body is a SymBuf.  Only
+    meaningful after well_formed(t) returned True."""
+    data, closes, late = wire_response(t)
+    first = data.segs[0]
+    i = find_crlf(first)
+    head2x = first[0] == 0x32
+    _, body = data.cut(i + 2)
+    return head2x, body
+
+
+def bytes_equal(a, b) -> bool:
+    """element-wise equality of two byte strings (either may be symbolic)"""
+    if len(a) != len(b):
+        return False
+    for j in range(len(b)):
+        if a[j] != b[j]:
+            return False
     return True
